@@ -518,6 +518,8 @@ def _server_priority(name):
         return lambda srv, ind: -srv.id_number
     if name == "less_busy":
         return lambda srv, ind: srv.busy_time
+    if name == "less_utilised":
+        return lambda srv, ind: (srv.busy_time / srv.total_time) if srv.total_time else 0.0
     raise env.HarnessError("unknown server priority %r" % name)
 
 
